@@ -15,12 +15,14 @@ ENGINES = {
     "C09": "cli:C09",
     "C11": "vlan",
     "C12": "pool",
+    "C16": "files",
     "C20": "history",
 }
 MODULES = {
     "pool": "annetsim.engines.pool",
     "cli": "annetsim.engines.cli",
     "vlan": "annetsim.engines.vlan",
+    "files": "annetsim.engines.files",
     "history": "annetsim.engines.history",
 }
 
